@@ -42,7 +42,7 @@ func u32list(xs []uint32) string {
 func lookupTables(c *hx.Ctx) {
 	r := hx.NewRng(c.Seed*15485863 + 9)
 	fragNs := []int{1, 2, 511, 512, 513, 1023, 1024, 1025}
-	idNs := []int{1, 2, 2047, 2048, 2049, 4096, 4097}
+	idNs := []int{1, 2, 2047, 2048, 2049, 4096, 4097, 16384, 16385} // 16385: the uint16 block count of the code before fix 0ff62c2 wrapped here
 	expNs := []int{1, 1023, 1024, 1025, 2048, 2049}
 	for k := 0; k < c.N(2, 30); k++ {
 		fragNs = append(fragNs, 1+r.Intn(1600))
@@ -224,7 +224,7 @@ func lookupTables(c *hx.Ctx) {
 		}
 		c.Distinct(fmt.Sprintf("lookup|export|n=%d", n))
 	}
-	// ---- recorded finding: the id table's block count is computed in uint16 ---------------------------
+	// ---- recorded finding (fixed by 0ff62c2): the id table's block count was computed in uint16 ----------
 	if id := "w/idtable-16385"; c.Want(id) {
 		n := 16385
 		ids := make([]uint32, n)
